@@ -25,6 +25,7 @@
     xhtml_roundtrip_tree_strip_partial xhtml_roundtrip_tree_qnames_strip_partial
     html_roundtrip_doc_strip_partial xhtml_roundtrip_doc_strip_partial xhtml_roundtrip_doc_readxml_strip_partial
     preserve_table_is_pre_textarea html_roundtrip_tree_mixed_partial xhtml_roundtrip_tree_mixed_tokens_partial
+    html_roundtrip_doc_mixed_partial strip_is_norm_forest_mixed_partial html_roundtrip_doc_mixed_strip_partial
 -/
 import Genshi.Lemmas.ReaderXhtml
 import Genshi.Lemmas.ReaderTree
@@ -36,6 +37,8 @@ import Genshi.Lemmas.ReaderDocView
 import Genshi.Lemmas.OutputNoCR
 import Genshi.Lemmas.OutputWsRender
 import Genshi.Lemmas.ReaderTreeMixed
+import Genshi.Lemmas.ReaderDocMixed
+import Genshi.Lemmas.OutputWsMixed
 import Genshi.Lemmas.OutputSafeText
 import Genshi.Lemmas.Output
 import Genshi.Lemmas.OutputFlatten
@@ -1097,6 +1100,88 @@ example : (assemble (forestPiecesXP xhtmlNs false (normForest .xhtml exWsDocBody
     [.start ⟨xhtmlNs, ['h', 't', 'm', 'l']⟩ [], .text ['\n'], .start ⟨xhtmlNs, ['p']⟩ [], .text ['a', '\n', '<'],
      .end_ ⟨xhtmlNs, ['p']⟩, .start ⟨xhtmlNs, ['p', 'r', 'e']⟩ [], .text [' ', '\n', '\n'],
      .end_ ⟨xhtmlNs, ['p', 'r', 'e']⟩, .end_ ⟨xhtmlNs, ['h', 't', 'm', 'l']⟩] := by decide
+
+/-- **html, whole documents whose body mixes namespaces**: as `html_roundtrip_doc_partial` (XML
+    declaration, DOCTYPE, doctype option, body with text / comment / PI / CDATA leaves), for a body
+    whose elements are in arbitrary namespaces other than XML (`forestMixedOk`): html.parser reads
+    back the winning DOCTYPE and the body with all namespace declarations gone. -/
+theorem html_roundtrip_doc_mixed_partial (cache dropd : Bool) (dopt : Option DocTypeT)
+    (decl : Option DeclT) (dt : Option DocTypeT) (body : List Node)
+    (hok : okList body = true) (hns : forestMixedOk body = true) (hh : htmlForestOkP body = true)
+    (hwin : dtOkOf (winDt dopt dt) = true) (hgt : dtNoGtOf (winDt dopt dt) = true) :
+    (render .html { strip := false, cache := cache, doctype := dopt, dropXmlDecl := dropd }
+        (flattenList (docNodes decl dt body))).bind readHtml =
+      some (htmlDocView (winDt dopt dt) (forestPiecesP body)) := by
+  have hc : render .html { strip := false, cache := cache, doctype := dopt, dropXmlDecl := dropd }
+        (flattenList (docNodes decl dt body)) =
+      render .html { strip := false, cache := false, doctype := dopt, dropXmlDecl := dropd }
+        (flattenList (docNodes decl dt body)) := by
+    cases cache
+    · rfl
+    · exact Genshi.Props.C08.render_cache_irrelevant' .html false dopt dropd _
+  rw [hc]
+  have hf := filtered_forestM .html dropd dopt (docNodes decl dt body) (okList_doc decl dt body hok)
+    (mixedOk_doc decl dt body hns)
+  rw [forestFm_doc, withDoctype_doc _ _ _ _ (notXdHead_bodyHM [] body hh)] at hf
+  simp only [render, chunks, hf, Option.map_some, Option.bind_some, readHtml]
+  have hl : ∀ evs, loop .html ⟨dropd⟩ false {} evs = serSpec .html ⟨dropd⟩ {} evs :=
+    fun evs => loop_nocache_eq_spec .html ⟨dropd⟩ evs {}
+  rw [hl, html_doc_tokens ⟨dropd⟩ decl dopt dt _ _ (bodyH_forestM [] body hh) hwin hgt]
+  simp only [Option.map_some]
+  rw [htmlView_doc _ _ hwin]
+
+example : okList exMixed = true ∧ forestMixedOk exMixed = true ∧ htmlForestOkP exMixed = true ∧
+    dtOkOf (winDt exDopt exDt) = true ∧ dtNoGtOf (winDt exDopt exDt) = true := by decide
+
+/-- `strip_whitespace=True` is `strip_whitespace=False` on the normalised forest, for forests that
+    mix namespaces (any method, cache setting, doctype option; `wsDom` as before) -/
+theorem strip_is_norm_forest_mixed_partial (m : Method) (cache dropd : Bool) (dopt : Option DocTypeT)
+    (ns : List Node) (hok : okList ns = true) (hns : forestMixedOk ns = true) (hd : wsDom m ns = true) :
+    render m { strip := true, cache := cache, doctype := dopt, dropXmlDecl := dropd } (flattenList ns) =
+      render m { strip := false, cache := cache, doctype := dopt, dropXmlDecl := dropd }
+        (flattenList (normForest m ns)) := by
+  have hc : ∀ (strip : Bool) (s : Stream),
+      render m { strip := strip, cache := cache, doctype := dopt, dropXmlDecl := dropd } s =
+      render m { strip := strip, cache := false, doctype := dopt, dropXmlDecl := dropd } s := by
+    intro strip s
+    cases cache
+    · rfl
+    · exact Genshi.Props.C08.render_cache_irrelevant' m strip dopt dropd s
+  rw [hc true, hc false]
+  have h1 := filtered_strip_forestM m dropd dopt ns hok hns
+  have h2 := filtered_forestM m dropd dopt (normForest m ns) (okList_normForest m ns hok)
+    (mixedOk_normForest m ns hns)
+  have hl : ∀ evs, loop m ⟨dropd⟩ false {} evs = serSpec m ⟨dropd⟩ {} evs :=
+    fun evs => loop_nocache_eq_spec m ⟨dropd⟩ evs {}
+  simp only [render, chunks, h1, h2, Option.map_some, hl]
+  rw [serSpec_ws_dt_eqM m ⟨dropd⟩ dopt ns hd]
+
+/-- **html, whole documents whose body mixes namespaces, `strip_whitespace=True`**: html.parser
+    reads back the winning DOCTYPE and the NORMALISED body with all namespace declarations gone -/
+theorem html_roundtrip_doc_mixed_strip_partial (cache dropd : Bool) (dopt : Option DocTypeT)
+    (decl : Option DeclT) (dt : Option DocTypeT) (body : List Node)
+    (hok : okList body = true) (hns : forestMixedOk body = true) (hd : wsDom .html body = true)
+    (hh : htmlForestOkP (normForest .html body) = true)
+    (hwin : dtOkOf (winDt dopt dt) = true) (hgt : dtNoGtOf (winDt dopt dt) = true) :
+    (render .html { strip := true, cache := cache, doctype := dopt, dropXmlDecl := dropd }
+        (flattenList (docNodes decl dt body))).bind readHtml =
+      some (htmlDocView (winDt dopt dt) (forestPiecesP (normForest .html body))) := by
+  rw [strip_is_norm_forest_mixed_partial .html cache dropd dopt _ (okList_doc decl dt body hok)
+    (mixedOk_doc decl dt body hns) (wsDom_doc .html decl dt body hd), normForest_doc]
+  exact html_roundtrip_doc_mixed_partial cache dropd dopt decl dt _ (okList_normForest .html body hok)
+    (mixedOk_normForest .html body hns) hh hwin hgt
+
+def exMixedWs : List Node :=
+  [.elem ⟨xhtmlNs, ['d', 'i', 'v']⟩ []
+    [.leaf (.text [' ', '\n'] false), .leaf (.text ['\n', 'a'] false),
+     .elem ⟨[], ['p', 'r', 'e']⟩ [] [.leaf (.text [' ', '\n', '\n'] false), .elem ⟨xhtmlNs, ['b', 'r']⟩ [] []]]]
+
+example : okList exMixedWs = true ∧ forestMixedOk exMixedWs = true ∧ wsDom .html exMixedWs = true ∧
+    htmlForestOkP (normForest .html exMixedWs) = true ∧ forestUniformNs xhtmlNs exMixedWs = false := by decide
+
+example : htmlDocView none (forestPiecesP (normForest .html exMixedWs)) =
+    [.start ['d', 'i', 'v'] [], .text ['\n', 'a'], .start ['p', 'r', 'e'] [], .text [' ', '\n', '\n'],
+     .start ['b', 'r'] [], .end_ ['p', 'r', 'e'], .end_ ['d', 'i', 'v']] := by decide
 
 def exProlog : List FEv :=
   [.xmlDecl ['1', '.', '0'] none (-1), .doctype ['h', 't', 'm', 'l'] none (some ['a', '"', 'b']),
